@@ -68,7 +68,8 @@ def valBranch (view : R → Bits × List R) (ord : R → Bool) (fuel : Nat) : Na
             if ord c then return Val.builder (view c).1 (view c).2 else SOp.fail
   | 6 => do let _ ← loadBytes 1
             let known ← (fun s' => (s', some (De.contTagKnown s')))
-            if known then do let k ← De.cont view ord fuel; return Val.cont k else return Val.null
+            if known then do let k ← De.cont view ord fuel; return Val.cont k
+            else (if fuel = 0 then SOp.fail else return Val.null)
   | 7 => do let _ ← loadBytes 1
             let len ← loadUint 16
             let vs ← De.tuple view ord fuel len.toNat
